@@ -192,10 +192,15 @@ macro "eofmapped2" : tactic =>
       | (dsimp only)
       | split))
 
+theorem scanBody_mapped (cfg : Config) (st : ScanState) (startPos : Nat) (header : BoxHeader) :
+    EofMapped (scanBody cfg st startPos header) := by
+  unfold scanBody
+  eofmapped2
+
 theorem scanBox_mapped (cfg : Config) (st : ScanState) : EofMapped (scanBox cfg st) := by
   unfold scanBox
   apply EofMapped.position; intro startPos
-  eofmapped2
+  exact EofMapped.bind readHeader_mapped (fun h => scanBody_mapped cfg st startPos h)
 
 theorem scan_mapped (cfg : Config) (fuel : Nat) (st : ScanState) : EofMapped (scan cfg fuel st) := by
   induction fuel generalizing st with
